@@ -2,6 +2,8 @@ import Evenio.Proofs.CompLedgerOps
 import Evenio.Proofs.EntHistory
 import Evenio.Proofs.Inv.QueueEmpty
 import Evenio.Props.ReachStore
+import Evenio.Props.C03History
+import Evenio.Props.C01Safe
 /-!
 # C12 (and the storage half of C11) along whole WORLD histories
 
@@ -46,14 +48,42 @@ condition on the operations:
   are pairwise distinct, and all were handed out (`< nextCSerial`): a value is never stored twice, never both stored
   and destroyed, never destroyed twice.  `quiescent_after_step`: after every operation that returns or panics (other
   than the model's fuel marker) the queue is empty, so at these points "live" means "stored".
-  The converse — NO LEAK: every value of a type with destructor that was ever created is stored or in the ledger — is
-  the subject of the second half of this file (`Conserved`, section (C′)).
+  The LITERAL converse — "every serial below the counter is stored, queued or in the ledger" — is FALSE of the model,
+  by design: a value of a component type without destructor that is overwritten (removed, despawned) leaves no trace
+  (`conservation_literal_false`, kernel-checked: K0 = 7 overwritten by K0 = 8, serial 1 is handed out and is nowhere).
+  The corrected converse — NO LEAK for the types WITH destructor — is NOT proved here; see "What is not proved".
 * **(D) C11, storage half** — `insert_dead_target_destroyed_once`: an `Insert` delivered to a dead target: the value is
   in the ledger, exactly once, and nowhere else; `insert_effect_stored_not_destroyed`: the built-in effect of an `Insert`
   on a live target (no handler took the event): the value is what `World::get` reads, its serial is stored exactly once,
   and it is not in the ledger (that the value it overwrites is logged is `world_insert_get_self_same`,
   `Props/C02World.lean`; that it is logged once and never seen again is (A), (B)).
 * **(E) non-vacuity** — `demo_history`: spawn, insert K1, overwrite K1, insert K4, despawn, evaluated by the kernel.
+
+## What is not proved
+
+**No leak** ("never neither"): *every value of a type with destructor that was ever created is stored, queued, or in the
+ledger*.  Unlike (A)–(C) this is not a property of the storage / queue / ledger bookkeeping alone: whether a value that
+leaves a column, the queue or a delivery reaches `dropCell` WITH ITS OWN TYPE is decided by tables — the component
+registry (`dropCellIdx c` logs iff `compNeedsDrop (w.compTy c)`), the registry entry of a queued event's index
+(`info.needsDrop`, `info.kind` decide whether the payload of an `Insert` is dropped, stored or ignored), the cached
+archetype edges (`traverse_insert` picks the destination; a destination without the new component makes the merge loop
+return normally WITHOUT consuming the supplied cell, `moveCols … [] [] [] [] _ = some …`) and the alignment of `comps`
+and `cols` (`zip` truncates).  The places where the proofs of this development FORGET a serial (`CLF.forget`,
+`CLF.drop_left`, `CLF.sub_X`, the `≤` of `moveCols_sers_le`) are exactly these:
+`dropCell` of a type without destructor (legitimate iff the type is the value's), `if info.needsDrop then dropEvent it`
+and the non-`insert` arms of `effectPhase` (legitimate iff the registry entry at the item's index agrees with the item's
+type), the leftover `new` cells and the `zip`s of `moveEntity` / `removeEntity` / `archsRemoveComponent` / `drop`
+(impossible iff `NewOk` resp. `cols.length = comps.length`), and the `ub` / `assert` exits.  That the tables agree is the
+world invariant (`WInv`: `GraphInv` for the edges, `StoreInv` for the columns, `RegistryInv.handlerRefs.sendsT` +
+`TevTyped` for queued items) plus a typing of `Insert` registry entries that `WInv` does not contain
+(`ei.ty = .ins k → ei.needsDrop = compNeedsDrop k ∧ ∃ c, ei.kind = .insert c ∧ compTy c = k`).  Per storage primitive
+and per effect, on normal return from a world satisfying `WInv`, exact conservation IS proved (`Props/ReachStore.lean`:
+`C12_move_ledger`, `C12_despawn_ledger`, `C12_spawn_ledger`, `C02_insert_effect`, …: `cells ++ new ~ cells' ++ dropped`,
+`cdrops' = dropLog w … ++ cdrops`, none lost by the pairing); what is missing is the typed whole-history glue: a
+predicate `∃ τ : serial → type, (every stored / queued / logged serial sits at a position of type τ s) ∧ (every
+`s < nextCSerial` with `compNeedsDrop (τ s)` is stored, queued or logged)`, pushed — together with `WInvMid`, hence on
+`ReachP` histories and under `Small` only — through the same 75 functions.  No counterexample to it was found: the
+kernel-evaluated histories below, and every history the correspondence check has run, conserve.
 
 The machinery: `Proofs/CompLedger.lean` (the predicate `CL X w`), `Proofs/CompLedgerStore.lean` (calculus, storage
 primitives), `Proofs/CompLedgerDeliver.lean` (handlers, one delivery, the event loop), `Proofs/CompLedgerOps.lean`
@@ -320,6 +350,23 @@ theorem quiescent_after_step {w : World} {op : Op} (hq : w.queue = [])
       exact r rfl (fun he => hne (by cases he; rfl))
   · exact r
 
+/-- histories in the sense of `Props/C03History.lean` (every step returns, or panics without leaving a reservation
+    pending) have no marker exit -/
+theorem histClean_of_goodHist {w : World} {ops : List Op} (h : C03History.GoodHist w ops) : HistClean w ops := by
+  induction ops generalizing w with
+  | nil => trivial
+  | cons op ops ih =>
+    refine ⟨fun e he => ?_, ih h.2.2⟩
+    rcases h.2.1 with ⟨l, hl⟩ | ⟨⟨cls, hcls, -⟩, -⟩
+    · rw [hl] at he; cases he
+    · rw [hcls] at he; cases he; rfl
+
+/-- by C01 (`Props/C01Safe.lean`), from a world the driver reaches (debug or release profile) a valid operation never ends
+    in a marker: the hypothesis `StepClean` is discharged -/
+theorem stepClean_of_reachable {d : Bool} {w : World} {op : Op} (hr : C01.ReachSD d w) (hv : op.SValid)
+    (hs : Small (step w op).1) : StepClean w op :=
+  C01.no_ub_reachable_both d w op hr hv hs
+
 /-! ## (D) C11, storage half: what becomes of the value of an `Insert` -/
 
 /-- **(D) dead target**: an `Insert` of a component type with destructor, delivered to an entity that does not exist
@@ -454,6 +501,36 @@ theorem demo_instance :
   rw [demo_total]
   decide
 
+/-! ## the literal conservation statement is false: values of types without destructor leave no trace -/
+
+/-- spawn `#0`; insert K0 = 7 (serial 1); overwrite K0 = 8 (serial 2).  K0 has no destructor. -/
+def plainOps : List Op := [.spawn, .insert 0 0 7, .insert 0 0 8]
+
+set_option maxRecDepth 100000 in
+theorem plain_eval :
+    compNeedsDrop 0 = false ∧
+    (runHist {} (plainOps.take 1)).cdrops = [] ∧ (runHist {} (plainOps.take 2)).cdrops = [] ∧
+    storedSers (runHist {} (plainOps.take 2)).archs = [1] ∧
+    (runHist {} plainOps).cdrops = [] ∧ storedSers (runHist {} plainOps).archs = [2] ∧
+    (runHist {} plainOps).queue = [] ∧ (runHist {} plainOps).nextCSerial = 3 := by
+  delta runHist
+  rw [← stepF.2]
+  decide +kernel
+
+/-- **the literal converse of (C) is false** (kernel-checked): after `spawn; insert K0 = 7; insert K0 = 8` two serials
+    have been handed out, serial `2` is stored, and serial `1` — the overwritten value, of a type without destructor —
+    is neither stored, nor queued, nor in the ledger of the history.  (In Rust the value is overwritten in place without
+    any drop glue; the harness logs destructions through `Drop`, so it sees nothing either.)  "Stored or destroyed,
+    never neither" can only be claimed for component types WITH destructor. -/
+theorem conservation_literal_false :
+    (runHist {} plainOps).nextCSerial = 3 ∧ 1 ∉ storedSers (runHist {} plainOps).archs ∧
+    1 ∉ queuedSers (runHist {} plainOps).queue ∧ 1 ∉ dropSers (totalLedger {} plainOps) := by
+  obtain ⟨-, h1, h2, -, h3, h4, h5, h6⟩ := plain_eval
+  refine ⟨h6, by rw [h4]; decide, by rw [h5]; decide, ?_⟩
+  simp only [plainOps, List.take, runHist_cons, runHist_nil] at h1 h2 h3
+  simp only [totalLedger, plainOps, histLedger, runHist_cons, runHist_nil, h1, h2, h3]
+  decide
+
 end C12History
 end Evenio
 
@@ -468,3 +545,5 @@ end Evenio
 #print axioms Evenio.C12History.insert_effect_stored_not_destroyed
 #print axioms Evenio.C12History.demo_history
 #print axioms Evenio.C12History.demo_instance
+#print axioms Evenio.C12History.conservation_literal_false
+#print axioms Evenio.C12History.stepClean_of_reachable
